@@ -50,6 +50,17 @@ def c17_task(n_targets):
         gen = r.mr("-f", r.path("Monorail.json"), "config", "generate", stdin=src_text.encode())
         if gen.code != 0:
             return {"judged": 0, "v": [("generate-failed", "config generate failed: %s" % gen.err[:300], {"cli_c17": n_targets})]}
+        # generate once more into the same path from a LONGER source first and then from the real one:
+        # the output and lockfile of the earlier, longer generation must be replaced completely
+        longer = dict(src)
+        longer["sequences"] = {"padding-%03d" % i: ["build", "test"] for i in range(60)}
+        longer_text = json.dumps(longer, indent=2)
+        r.write("Monorail.src.json", longer_text)
+        r.mr("-f", r.path("Monorail.json"), "config", "generate", stdin=longer_text.encode())
+        r.write("Monorail.src.json", src_text)
+        gen = r.mr("-f", r.path("Monorail.json"), "config", "generate", stdin=src_text.encode())
+        if gen.code != 0:
+            return {"judged": 0, "v": [("generate-failed", "second config generate failed: %s" % gen.err[:300], {"cli_c17": n_targets})]}
         r.commit("generated")
         files = {n: open(r.path(n), "rb").read() for n in ("Monorail.json", "Monorail.src.json", "Monorail.lock")}
         size = len(files["Monorail.json"])
